@@ -140,13 +140,13 @@ PROPS = {
         "engine": "E2", "level": "exploration", "design_ref": "DESIGN.md §5 C15",
         "technique": "deterministic simulation: two real DefraDB nodes with the real net.Peer (replicator, retry loop, push/receive, DAG sync) on a simulated transport and a fake clock; seeded loss, duplication, reordering, time-outs, unreachability, crash/restart, block-fetch failures, schema patch; bounded liveness after faults stop",
         "rule": ("plans of 6-35 steps: writes on A (create/update/delete of <=3 documents), decisions on pending push-log RPCs (deliver one / drop / duplicate / deliver all / deliver last first / leave to time out), B unreachable/reachable, B crash and recovery from its durable log, "
-                 "schema patch on both nodes, failing block fetches, clock advances (0.1 s .. retry interval+1 s); retry intervals from 1 s to 600 s; replicator for all or named collections, configured before or after the first writes; "
+                 "schema patch on both nodes, failing block fetches, clock advances (0.1 s .. retry interval+1 s); retry intervals from 1 s to 600 s; replicator for all or named collections, configured before or after the first writes; a fifth of the plain-collection plans use a @branchable collection, whose collection-level heads must be equal at the end too; "
                  "a fourth of the runs use 'B subscribed to the collection' (pubsub) with duplication/reordering only. non-trivial: >=1 failed push and convergence at the end; distinct = hash of the step-kind sequence actually executed"),
         "real_vs_stub": ("real: net/peer.go, client.go, server.go (processPushlog, access filter), sync_dag.go, p2p_replicator.go, p2p_collection.go incl. NewPeer's reload logic, internal/db merge path via the event bus, badger in-memory under SimStore; "
                          "real but idle: libp2p host, DHT, gossipsub objects (no listen address, no socket); stub: gRPC/libp2p streams, bitswap, gossipsub delivery = SimTransport (in-process; a block is only handed out if its bytes hash to the cid and the serving peer's access filter agrees), "
                          "clock = testing/synctest bubble clock (one clock for all nodes: jumps, no per-node skew), crash = store fenced then torn down, restart = replay of the committed-batch log"),
         "assumptions": ASSUME_COMMON + ["A is not crashed while it owes a delivery (the statement quantifies over B's outages)", "pubsub has no retry, so in the pubsub configuration only outages that lose no message are generated"],
-        "probes": ["push_failed_total", "push_timed_out", "push_dropped", "push_duplicated", "b_crashed", "b_unreachable", "fetch_failed_injected", "schema_patched", "runs_converged_after_failed_pushes", "pubsub_delivered"],
+        "probes": ["push_failed_total", "push_timed_out", "push_dropped", "push_duplicated", "b_crashed", "b_unreachable", "fetch_failed_injected", "schema_patched", "runs_converged_after_failed_pushes", "pubsub_delivered", "collection_level_heads_compared"],
         "quick": {"count": 25, "budget_s": 70, "workers": 16},
         "thorough": {"count": 100000, "budget_s": 1500, "workers": 16},
         "text": "Safety at every step: every document B shows is a state A has shown. Bounded liveness: after the last fault, with B reachable and no further writes, within 2*max(retry interval)+60 s of simulated time B's documents equal A's. The bound comes from the configuration the plan chose.",
